@@ -24,9 +24,15 @@ def shape(t, d=0):
     return "?"
 
 
+def has_refinement(t):
+    return t["k"] in ("enum", "iv") or any(has_refinement(t[x]) for x in ("a", "b") if isinstance(t.get(x), dict))
+
+
 def kindsig(t):
-    """coarse form of a type for signatures: its outermost constructor"""
-    return {"c": "class", "enum": "enum", "iv": "interval", "or": "union", "and": "intersection", "list": "list", "tuple": "tuple"}[t["k"]]
+    """coarse form of a type for signatures: its outermost constructor, marked with * when a refinement
+    (enum or interval) type occurs in it"""
+    k = {"c": "class", "enum": "enum", "iv": "interval", "or": "union", "and": "intersection", "list": "list", "tuple": "tuple"}[t["k"]]
+    return k + ("*" if has_refinement(t) and t["k"] not in ("enum", "iv") else "")
 
 
 def relation(vh, types, jobs=14):
